@@ -38,16 +38,17 @@ ACTIONS = ['MStart', 'MAcqCv', 'MDecide', 'MPut', 'MWake', 'MQJoin', 'MStop', 'M
 OWNS = {'C01': ('C01_',), 'C02': ('C02_',), 'C03': ('C03_',)}
 
 
-def _consts(n, w, configs, atomic=True, calls=1):
-    return {'N': n, 'W': w, 'AtomicPublish': atomic, 'Calls': calls, 'Configs': Raw('<- ' + configs), 'None': Raw('None')}
+def _consts(n, w, configs, atomic=True, calls=1, interrupts=False):
+    return {'N': n, 'W': w, 'AtomicPublish': atomic, 'Calls': calls, 'Configs': Raw('<- ' + configs), 'None': Raw('None'),
+            'Interrupts': interrupts}
 
 
 # ---------------------------------------------------------------------------
 # model checking
 # ---------------------------------------------------------------------------
 def model_check(ctx, wd, name, n, w, configs, invariants, *, atomic=True, deadlock=True, properties=(), spec='Spec',
-                expect_violation=None, coverage=True, timeout=1700, calls=1):
-    cfg = tlc.write_cfg(os.path.join(wd, name + '.cfg'), spec=spec, constants=_consts(n, w, configs, atomic, calls),
+                expect_violation=None, coverage=True, timeout=1700, calls=1, interrupts=False):
+    cfg = tlc.write_cfg(os.path.join(wd, name + '.cfg'), spec=spec, constants=_consts(n, w, configs, atomic, calls, interrupts),
                         invariants=invariants, properties=properties, deadlock=deadlock)
     res = tlc.run(_spec_for(configs), cfg, coverage=coverage, timeout=timeout)
     ctx.tlc(res, 'Sched/' + name)
@@ -412,7 +413,8 @@ def tlc_validate(ctx, wd, traces, n, w, strict, tag, calls=1, account=None):
     tj = tlc.json_dump(os.path.join(wd, 'traces_%s.json' % tag), traces)
     oj = os.path.join(wd, 'out_%s.json' % tag)
     cfg = tlc.write_cfg(os.path.join(wd, 'trace_%s.cfg' % tag), spec='TSpec',
-                        constants={'N': n, 'W': w, 'AtomicPublish': True, 'Calls': calls, 'Configs': Raw('{}'), 'None': Raw('None'), 'Strict': strict},
+                        constants={'N': n, 'W': w, 'AtomicPublish': True, 'Calls': calls, 'Configs': Raw('{}'), 'None': Raw('None'), 'Strict': strict,
+                                   'Interrupts': True},
                         deadlock=False, postcondition='Post')
     res = tlc.run(TRACE, cfg, workers=1, coverage=False, env=dict(VERIF_TRACES=tj, VERIF_OUT=oj), timeout=1700)
     if account is None:
@@ -543,6 +545,10 @@ def replay_case(case):
         cfg['nested'] = c['nested']
     if c.get('prior'):
         cfg['prior'] = c['prior']
+    if c.get('interrupt'):
+        cfg['interrupt'] = c['interrupt']
+    if c.get('falsy'):
+        cfg['falsy'] = c['falsy']
     if c.get('outcome_real'):
         cfg['outcome'] = {str(i + 1): o for i, o in enumerate(c['outcome_real'])}
     ex, trace = schedrun.record(cfg, detsched.Replay(case['schedule']))
@@ -638,6 +644,20 @@ def _common(ctx, invs, mc_runs, witnesses, impl_plan, sim_plan, dfs_plan):
         rng = random.Random(ctx.seed * 7919 + n * 31 + w + 1000 * calls)
         if cyclic == 'nested':
             cfgs = [nested_cfg(rng, n, w, outcomes) for _ in range(ncfg)]
+        elif cyclic == 'falsy':
+            # some task objects are falsy (a task class with __len__, empty): only do() is required of a task
+            cfgs = []
+            for _ in range(ncfg):
+                cfg = random_cfg(rng, n, w, outcomes, inits, False, calls=calls)
+                cfg['falsy'] = sorted(rng.sample(range(1, n + 1), rng.randint(1, n)))
+                cfgs.append(cfg)
+        elif cyclic == 'interrupt':
+            # an exception is delivered to the master at one of its scheduling points (see schedrun.execute)
+            cfgs = []
+            for _ in range(ncfg):
+                cfg = random_cfg(rng, n, w, outcomes, inits, False, calls=calls)
+                cfg['interrupt'] = rng.randint(1, 6 + 4 * n)
+                cfgs.append(cfg)
         elif cyclic == 'prior':
             # the backend object (and the task objects) served another graph before: see schedrun.execute
             cfgs = []
@@ -734,17 +754,23 @@ def run_c03(ctx):
           ('c03_n2w2_init', 2, 2, 'MC_DagInit', {}),
           ('c03_n3w2', 3, 2, 'MC_DagEmpty3', {}),
           ('c03_n2w2_twice', 2, 2, 'MC_DagInitDone', dict(calls=2)),
+          ('c03_n2w2_interrupted', 2, 2, 'MC_DagEmptyAll', dict(interrupts=True)),
           ('c03_live_n2w2', 2, 2, 'MC_DagEmptyAll', dict(spec='FairSpec', properties=['C03_Terminates'], coverage=False))]
     if not q:
         mc += [('c03_n3w2_any', 3, 2, 'MC_AnyEmpty', {}), ('c03_n3w3', 3, 3, 'MC_DagEmpty3', {}),
                ('c03_n3w2_mal', 3, 2, 'MC_DagEmptyMal', {}), ('c03_n3w2_init', 3, 2, 'MC_DagInit', {}), ('c03_n4w2_ok', 4, 2, 'MC_DagOk', {}),
+               ('c03_n3w2_interrupted', 3, 2, 'MC_DagEmpty3', dict(interrupts=True)),
+               ('c03_live_n2w2_interrupted', 2, 2, 'MC_DagEmptyAll', dict(spec='FairSpec', properties=['C03_Terminates'], coverage=False, interrupts=True)),
                ('c03_live_n3w2', 3, 2, 'MC_DagEmpty3', dict(spec='FairSpec', properties=['C03_Terminates'], coverage=False))]
     _common(ctx, INV_C03, mc, [('W_Raised', 2, 2, 'MC_AnyInit'), 'W_WaitReached', 'W_NotifyNobody', ('W_SecondCall', 2, 2, 'MC_DagInitDone', 2)],
             impl_plan=[(3, 2, OUT_ALL + ['reshape'], ['ABSENT', 'ABSENT', 'DONE', 'FAILED', 'SKIPPED'], True, ctx.pick(30, 150), ctx.pick(10, 25)),
                        (4, 3, OUT_ALL + ['reshape', 'reshape'], ['ABSENT', 'DONE'], True, ctx.pick(15, 80), ctx.pick(10, 25)),
                        (2, 1, OUT_ALL, ['ABSENT', 'DONE', 'FAILED'], True, ctx.pick(15, 40), ctx.pick(4, 8)),
                        (5, 4, OUT_ALL, None, False, ctx.pick(8, 40), ctx.pick(8, 25)),
-                       (3, 2, ['ok', 'ok', 'fail', 'badstatus'], ['ABSENT', 'DONE'], False, ctx.pick(15, 60), ctx.pick(6, 15), 2)],
+                       (3, 2, ['ok', 'ok', 'fail', 'badstatus'], ['ABSENT', 'DONE'], False, ctx.pick(15, 60), ctx.pick(6, 15), 2),
+                       (3, 2, ['ok', 'ok', 'fail', 'raise'], None, 'interrupt', ctx.pick(40, 200), ctx.pick(6, 12)),
+                       (3, 2, ['ok', 'ok', 'fail'], None, 'falsy', ctx.pick(15, 80), ctx.pick(4, 10)),
+                       (4, 3, ['ok', 'ok', 'ok', 'none'], ['ABSENT', 'DONE'], 'interrupt', ctx.pick(20, 100), ctx.pick(6, 12))],
             sim_plan=[('c03sim_n2w2', 2, 2, 'MC_AnyInit', ctx.pick(200, 2000), 50),
                       ('c03sim_twice', 2, 2, 'MC_DagInitDone', ctx.pick(100, 800), 80, 2)],
             dfs_plan=[(dict(PAIR, outcome={'1': 'notpair'}), ctx.pick(1500, 40000))] + ([] if q else [(CHAIN3, 15000)]))
